@@ -254,3 +254,9 @@ were coalesced before it. (The same fact is `C15_tables_full`; here it is what "
 theorem C20_table_lists_have_no_spare_capacity :
     ∀ n ∈ LA.Gen.Norms.norms, n.catCap = n.ecsCategory.length ∧ n.typCap = n.ecsType.length := by
   decide +kernel
+
+/-- … and reads nothing of the process it runs in: package auparse calls no function of os, os/user, os/exec, net,
+runtime, math/rand or crypto/rand, no time.Now / Since / Until, no file-system function of path/filepath and no
+process query of syscall (`envReads`, regenerated with go/types on every run). What the parser answers is a function
+of the bytes it is given — not of the machine's time zone, locale, user database, number of processors or files. -/
+theorem C20_parser_reads_no_environment : LA.StateFacts.envOf "auparse" = [] := by decide
